@@ -2,9 +2,10 @@
    Imports only Mathlib-free model files. -/
 import Iodata.Drv.Conv
 import Iodata.Drv.Helpers
+import Iodata.Drv.Select
 
 def handlers : List (List String → Option String) :=
-  [Iodata.Drv.Conv.handle, Iodata.Drv.Helpers.handle]
+  [Iodata.Drv.Conv.handle, Iodata.Drv.Helpers.handle, Iodata.Drv.Select.handle]
 
 def respond (line : String) : String :=
   let ws := (line.splitOn " ").filter (· ≠ "")
